@@ -10,6 +10,7 @@
 import Zed.Proofs.LakeSorted
 import Zed.Proofs.LakeRefine
 import Zed.Proofs.LakeSeek
+import Zed.Proofs.LakeSlicer
 namespace Zed.Props.C14
 open Zed.Lake
 
@@ -161,6 +162,25 @@ theorem object_meta_correct (cfg : Cfg K V) (L : KeyLaws cfg) (hk : cfg.mkey = c
   · cases h
 
 omit [DecidableEq V] in
+/-- **scan_sorted.**  The unfiltered scan of any set of objects — any number, any overlaps, any
+    partitioning by the slicer — is in pool-key order, ascending or descending, with null /
+    missing keys as the largest key (that is the key order `kle`), provided every object holds
+    key-sorted values within its `[min, max]` (`object_meta_correct`, `load_object_sorted`,
+    `deleteWhere_objects_sorted`) and `min ≤ max`.  Proved through: `sortObjects`' `lessFunc` is
+    the lexicographic order on (range start, range end), so the lister hands the objects over
+    ordered by range start (`lister_fromSorted`); the slicer's partitions are then pairwise
+    separated in pool order (`slicer_separated`); the merge of a partition is sorted
+    (`scan_sorted_partial`).  Laws assumed of the key order: total preorder (`KeyTotal`,
+    `OrderLaws`), byte equality of keys = equivalence in the order (`KeqLaw`).  The order among
+    values of equal key is not fixed (finding C14:scan:tie-order). -/
+theorem scan_sorted (cfg : Cfg K V) (L : OrderLaws cfg) (T : KeyTotal cfg) (hq : KeqLaw cfg)
+    (files : List (Nat × List V)) (objs : List (Obj K)) (r : List V)
+    (h : scanObjs cfg files objs = .ok r)
+    (hwf : ∀ o ∈ objs, cfg.kle o.min o.max = true) (hobj : ∀ o ∈ objs, ObjFine cfg files o) :
+    SortedK cfg r :=
+  scanObjs_sorted cfg L T files objs r h (lister_fromSorted cfg T hq objs) hwf hobj
+
+omit [DecidableEq V] in
 /-- **seek_entries_cover.**  For the key-sorted value sequence `vals` of an object, any seek
     stride and any key sizes, the seek index `data.Writer` writes (`seekSegs`: each entry with the
     values it covers) partitions the object: the covered pieces, in order, are exactly `vals`;
@@ -223,6 +243,30 @@ omit [DecidableEq V] in
 theorem load_object_sorted (cfg : Cfg K V) (L : OrderLaws cfg) (buf : List V) :
     isSorted cfg (sortVals cfg buf) = true :=
   isSorted_of_sortedK cfg _ (sortedK_sortVals cfg L buf)
+
+/-! negation witness for `lister_fromSorted` without `KeqLaw`: keys with empty bytes -/
+private def kleOpt : Option Int → Option Int → Bool
+  | _, none => true
+  | none, some _ => false
+  | some x, some y => decide (x ≤ y)
+
+/-- a descending pool in which, as in zcode, the int64 0 and null are byte-equal -/
+private def emptyBytesCfg : Cfg (Option Int) Nat :=
+  { key := fun _ => none, mkey := fun _ => none, kle := kleOpt,
+    keq := fun a b => a.getD 0 == b.getD 0, vle := Nat.ble, desc := true, thresh := 1, size := fun _ => 1 }
+
+/-- **not_lister_fromSorted**: for the ranges [0,0] and [-1,null] of a descending pool `lessFunc`
+    holds in both directions, and the stable sort leaves [0,0] in front of [-1,null] although
+    null is the larger range start.  Replayed on the real code (witness:lister-empty-bytes). -/
+theorem not_lister_fromSorted :
+    let a : Obj (Option Int) := { id := 1, min := some 0, max := some 0, count := 1 }
+    let b : Obj (Option Int) := { id := 2, min := some (-1), max := none, count := 2 }
+    listerLess emptyBytesCfg a b = true ∧ listerLess emptyBytesCfg b a = true ∧
+      lister emptyBytesCfg [b, a] = [a, b] ∧ ¬ fromLe emptyBytesCfg a b := by
+  refine ⟨by decide, by decide, ?_, ?_⟩
+  · simp [lister, List.mergeSort, List.merge]
+    decide
+  · simp [fromLe, emptyBytesCfg, kleOpt]
 
 /-! negation witness for `object_meta_correct` without its guard: pool key `this` -/
 private def thisCfg : Cfg (Option Nat) Nat :=
@@ -290,6 +334,19 @@ example : (∀ f ∈ dupState.files, f.1 < dupState.nextObj) ∧
 private def natCfg : Cfg Nat Nat :=
   { key := id, mkey := id, kle := Nat.ble, keq := (· == ·), vle := Nat.ble, desc := false,
     thresh := 4, size := fun _ => 1 }
+
+/-- non-vacuity of `KeyTotal` / `KeqLaw`: the natural numbers -/
+example : KeyTotal natCfg ∧ KeqLaw natCfg := by
+  refine ⟨⟨⟨by intro a; simp [natCfg], by intro a b c h1 h2; simp [natCfg] at *; omega⟩,
+    by intro a b; simp [natCfg]; omega⟩, ?_⟩
+  intro a b
+  simp only [natCfg]
+  by_cases h : a = b
+  · subst h; simp
+  · have : (a == b) = false := by simpa using h
+    rw [this]
+    cases h1 : Nat.ble a b <;> cases h2 : Nat.ble b a <;> simp_all [Nat.ble_eq]
+    omega
 
 /-- non-vacuity of `OrderLaws` / `KeyLaws`: the natural numbers -/
 example : OrderLaws natCfg where
